@@ -49,7 +49,10 @@ func (server *GripServer) Traversal(query *gripql.GraphQuery, queryServer gripql
 func (server *GripServer) ListGraphs(ctx context.Context, empty *gripql.Empty) (*gripql.ListGraphsResponse, error) {
 	//server.updateGraphMap()
 	graphs := []string{}
-	for g := range server.graphMap {
+	server.stateLock.RLock()
+	graphMap := server.graphMap
+	server.stateLock.RUnlock()
+	for g := range graphMap {
 		graphs = append(graphs, g)
 	}
 	return &gripql.ListGraphsResponse{Graphs: graphs}, nil
@@ -455,7 +458,9 @@ func (server *GripServer) GetSchema(ctx context.Context, elem *gripql.GraphID) (
 	if !server.graphExists(elem.Graph) {
 		return nil, status.Errorf(codes.NotFound, fmt.Sprintf("graph %s: not found", elem.Graph))
 	}
+	server.stateLock.RLock()
 	schema, ok := server.schemas[elem.Graph]
+	server.stateLock.RUnlock()
 	if !ok {
 		if server.conf.Server.AutoBuildSchemas {
 			return nil, status.Errorf(codes.Unavailable, fmt.Sprintf("graph %s: schema not available; try again later", elem.Graph))
@@ -493,7 +498,9 @@ func (server *GripServer) AddSchema(ctx context.Context, req *gripql.Graph) (*gr
 	if err != nil {
 		return nil, fmt.Errorf("failed to store new schema: %v", err)
 	}
+	server.stateLock.Lock()
 	server.schemas[req.Graph] = req
+	server.stateLock.Unlock()
 	return &gripql.EditResult{Id: req.Graph}, nil
 }
 
